@@ -22,6 +22,30 @@ pub struct Snip {
     pub code: String,
     /// the program without wrappers (used when the wrappers do not compile)
     pub plain: Option<String>,
+    /// a ready-made Sierra program (instantiation-lattice wrappers): no front end involved
+    pub sierra: Option<Program>,
+}
+
+/// The C14 instantiation lattice as executable programs: one function `test::F` per accepted libfunc
+/// instantiation, taking the libfunc's parameters and returning its outputs.  Only libfuncs of the
+/// allowed-libfuncs lists are executed: `audited` for C02 (the property's own restriction), `all` otherwise
+/// (what is outside it - `dummy_function_call`, a size-estimation placeholder - is never run).
+pub fn inst_snippets(tier: Tier, audited_only: bool) -> Vec<Snip> {
+    let list = if audited_only { "audited" } else { "all" };
+    let audited: std::collections::BTreeSet<String> = std::fs::read_to_string(format!("/repo/crates/cairo-lang-starknet-classes/src/allowed_libfuncs_lists/{list}.json"))
+        .ok()
+        .and_then(|t| serde_json::from_str::<serde_json::Value>(&t).ok())
+        .map(|v| match &v["allowed_libfuncs"] {
+            Value::Array(a) => a.iter().filter_map(|x| x.as_str().map(|s| s.to_string())).collect(),
+            Value::Object(o) => o.keys().cloned().collect(),
+            _ => Default::default(),
+        })
+        .unwrap_or_default();
+    crate::c14inst::compiled_wrappers(tier)
+        .into_iter()
+        .filter(|(_, p)| p.libfunc_declarations.iter().all(|d| audited.contains(d.long_id.generic_id.0.as_str())))
+        .map(|(name, p)| Snip { name, code: p.to_string(), plain: None, sierra: Some(p) })
+        .collect()
 }
 
 /// E2E-CAIRO snippets + the hand-written extra programs (loops, recursion, dicts, locals across calls).
@@ -29,12 +53,15 @@ pub fn snippets(tier: Tier) -> Vec<Snip> {
     let mut v: Vec<Snip> = e2e_cairo()
         .into_iter()
         .map(|(name, code)| {
-            let w = crate::wrap::wrappers(&code);
-            if w.is_empty() { Snip { name: format!("e2e:{name}"), code, plain: None } } else { Snip { name: format!("e2e:{name}"), code: format!("{code}\n{w}"), plain: Some(code) } }
+            // snippets that declare their own `extern fn`s (allowed only under `extern_outside_corelib`) reach
+            // internal libfuncs whose operand requirements the lowering normally guarantees (`local_into_box`
+            // wants a local); calling those from generated wrappers builds programs outside the language
+            let w = if code.contains("extern_outside_corelib") { String::new() } else { crate::wrap::wrappers(&code) };
+            if w.is_empty() { Snip { name: format!("e2e:{name}"), code, plain: None, sierra: None } } else { Snip { name: format!("e2e:{name}"), code: format!("{code}\n{w}"), plain: Some(code), sierra: None } }
         })
         .collect();
     for (name, code) in crate::progs::extra_programs(tier) {
-        v.push(Snip { name, code, plain: None });
+        v.push(Snip { name, code, plain: None, sierra: None });
     }
     // whole files: examples/ and the regression programs of tests/bug_samples (test attributes removed so
     // the functions are ordinary functions, run with their scalar arguments or none)
@@ -54,7 +81,7 @@ pub fn snippets(tier: Tier) -> Vec<Snip> {
                 })
                 .map(|l| format!("{l}\n"))
                 .collect();
-            v.push(Snip { name: format!("file:{}", f.strip_prefix("/repo").unwrap().to_string_lossy().trim_start_matches('/')), code, plain: None });
+            v.push(Snip { name: format!("file:{}", f.strip_prefix("/repo").unwrap().to_string_lossy().trim_start_matches('/')), code, plain: None, sierra: None });
         }
     }
     v
@@ -86,6 +113,9 @@ impl Dbs {
     }
     /// Compiles a snippet with its generated wrappers, falling back to the plain program.
     pub fn compile_snip(&mut self, cfg: &Cfg, snip: &Snip) -> Result<Program, String> {
+        if let Some(p) = &snip.sierra {
+            return Ok(p.clone());
+        }
         match self.compile(cfg, &snip.code) {
             Ok(p) => Ok(p),
             Err(e) => match &snip.plain {
